@@ -386,7 +386,7 @@ def check_lifecycle(pid, tier, seed):
     build_harness(log)
     known = load_known()
     mc = run_lifecycle_mc(workdir, tier)
-    s1 = sample_evenly(mc["scripts"], 4000 if tier == "quick" else 40000)
+    s1 = sample_evenly(mc["scripts"], 4000 if tier == "quick" else 12000)
     scripts = LIFECYCLE_REGRESSIONS + s1
     trace, sp, stats = client_run(scripts, workdir, "tokio")
     verdict, tlc = trace_check(trace, [pid], os.path.join(workdir, "tc"))
@@ -837,6 +837,7 @@ TOKIO_PUMP_REGRESSIONS = [
  {"cfg": {"src": "S3:pump-tokio-happy", "auto_broker": True, "ka": 0}, "steps": [{"a": "Start"}, {"a": "Run", "ms": 50}, {"a": "Publish", "qos": 0, "size": 10}, {"a": "Publish", "qos": 1, "size": 300}, {"a": "Publish", "qos": 2, "size": 20}, {"a": "Subscribe"}, {"a": "Inbound", "n": 3, "size": 40}, {"a": "Settle", "ms": 2000}]},
  {"cfg": {"src": "S3:pump-tokio-byte-at-a-time", "auto_broker": True, "ka": 0}, "steps": [{"a": "Start"}, {"a": "Run", "ms": 50}, {"a": "WriteChunk", "n": 1}, {"a": "ReadChunk", "n": 1}, {"a": "Publish", "qos": 1, "size": 9000}, {"a": "Publish", "qos": 0, "size": 5}, {"a": "Inbound", "n": 2, "size": 5000}, {"a": "Publish", "qos": 2, "size": 4100}, {"a": "Settle", "ms": 4000}]},
  {"cfg": {"src": "S3:pump-tokio-stall-and-resume", "auto_broker": True, "ka": 0}, "steps": [{"a": "Start"}, {"a": "Run", "ms": 50}, {"a": "WriteStall", "on": True}, {"a": "Publish", "qos": 1, "size": 5000}, {"a": "Publish", "qos": 1, "size": 5000}, {"a": "Yield", "n": 5}, {"a": "WriteChunk", "n": 7}, {"a": "WriteStall", "on": False}, {"a": "Settle", "ms": 4000}]},
+ {"cfg": {"src": "S3:pump-tokio-partial-write-then-blocked", "auto_broker": True, "ka": 0}, "steps": [{"a": "Start"}, {"a": "Run", "ms": 50}, {"a": "WriteBudget", "n": 10}, {"a": "Publish", "qos": 1, "size": 1000}, {"a": "Yield", "n": 3}, {"a": "Inbound", "n": 1, "size": 30}, {"a": "Yield", "n": 3}, {"a": "Publish", "qos": 0, "size": 10}, {"a": "Yield", "n": 2}, {"a": "WriteStall", "on": False}, {"a": "Settle", "ms": 3000}]},
  {"cfg": {"src": "S3:results-tokio-submit-around-close", "auto_broker": True, "ka": 0}, "steps": [{"a": "Start"}, {"a": "Run", "ms": 50}, {"a": "Publish", "qos": 1, "size": 10}, {"a": "Subscribe"}, {"a": "Close"}, {"a": "Publish", "qos": 0, "size": 10}, {"a": "Publish", "qos": 1, "size": 10}, {"a": "Unsubscribe"}, {"a": "Settle", "ms": 3000}]},
 ]
 THREADED_PUMP_REGRESSIONS = [
@@ -864,6 +865,10 @@ def random_pump_scripts(seed, n_tokio, n_threaded, n_ws):
             if r < 0.15: steps.append({"a": "WriteChunk", "n": rng.choice([0, 1, 2, 3, 7, 64, 1000])})
             elif r < 0.25: steps.append({"a": "ReadChunk", "n": rng.choice([0, 1, 2, 5, 100])})
             elif r < 0.32 and not closed: steps += [{"a": "WriteStall", "on": True}, {"a": "Publish", "qos": rng.choice([0, 1, 2]), "size": rng.choice(sizes)}, {"a": "Yield", "n": rng.randint(1, 6)}, {"a": "WriteStall", "on": False}]
+            elif r < 0.40 and not closed:
+                # back-pressure: the transport takes part of what is offered, blocks while other events arrive, then resumes
+                steps += [{"a": "WriteBudget", "n": rng.choice([1, 3, 10, 100, 4000, 5000])}, {"a": "Publish", "qos": rng.choice([0, 1, 2]), "size": rng.choice([100, 1000, 9000])}, {"a": "Yield", "n": rng.randint(1, 4)},
+                          rng.choice([{"a": "Inbound", "n": 1, "size": 50}, {"a": "Publish", "qos": 1, "size": 20}, {"a": "Run", "ms": 10}]), {"a": "Yield", "n": rng.randint(1, 4)}, {"a": "WriteStall", "on": False}]
             elif r < 0.62: steps.append({"a": "Publish", "qos": rng.choice([0, 1, 2]), "size": rng.choice(sizes)})
             elif r < 0.70: steps.append({"a": rng.choice(["Subscribe", "Unsubscribe"])})
             elif r < 0.82 and not closed: steps.append({"a": "Inbound", "n": rng.randint(1, 4), "size": rng.choice(sizes)})
@@ -968,12 +973,54 @@ def check_pump(pid, tier, seed):
                     "TLC as the judge of MonC13 and BytePump.tla"], time.time() - t0, violations, {"log": log})
     return 1 if violations else 0
 
+
+# C11, client level: configuration values the builders accept must not make the client panic or abort its event loop
+EXTREME_TOKIO = [
+ {"cfg": {"src": "S3:x1-connect-timeout-max", "auto_broker": True, "ka": 0, "connect_timeout_tok": "max"}, "steps": [{"a": "Start"}, {"a": "Run", "ms": 200}, {"a": "Publish", "qos": 1, "size": 10}, {"a": "Settle", "ms": 2000}]},
+ {"cfg": {"src": "S3:x2-ack-timeout-max", "auto_broker": True, "ka": 0}, "steps": [{"a": "Start"}, {"a": "Run", "ms": 200}, {"a": "Publish", "qos": 1, "size": 10, "ack": "max"}, {"a": "Settle", "ms": 2000}]},
+ {"cfg": {"src": "S3:x3-ping-timeout-max", "auto_broker": True, "ka": 1, "ping_timeout_tok": "max"}, "steps": [{"a": "Start"}, {"a": "Run", "ms": 3000}, {"a": "Publish", "qos": 1, "size": 10}, {"a": "Settle", "ms": 3000}]},
+ {"cfg": {"src": "S3:x4-zero-timeouts", "auto_broker": True, "ka": 1, "ping_timeout_tok": "zero", "connect_timeout_tok": "zero"}, "steps": [{"a": "Start"}, {"a": "Run", "ms": 3000}, {"a": "Publish", "qos": 1, "size": 10, "ack": "zero"}, {"a": "Settle", "ms": 3000}]},
+ {"cfg": {"src": "S3:x9-huge-reconnect-periods", "auto_broker": True, "ka": 0, "base_tok": "halfplus", "max_tok": "durmax", "jitter": "uniform"}, "steps": [{"a": "ConnectPlan", "mode": "refuse"}, {"a": "Start"}, {"a": "Settle", "ms": 2000}]},
+ {"cfg": {"src": "S3:x10-keep-alive-65535", "auto_broker": True, "ka": 65535}, "steps": [{"a": "Start"}, {"a": "Run", "ms": 500}, {"a": "Publish", "qos": 2, "size": 10, "ack": "1"}, {"a": "Settle", "ms": 3000}]},
+]
+EXTREME_THREADED = [
+ {"cfg": {"src": "S3:x5-threaded-huge-reconnect-wait", "adapter": "plain", "connect": "refuse", "base_tok": "halfplus", "max_tok": "max"}, "steps": [{"a": "Start"}, {"a": "Sleep", "ms": 300}, {"a": "Settle", "ms": 300}]},
+ {"cfg": {"src": "S3:x6-threaded-connect-timeout-max", "adapter": "plain", "connect_timeout_tok": "max"}, "steps": [{"a": "Start"}, {"a": "WaitConnected"}, {"a": "Publish", "qos": 1, "size": 10}, {"a": "Settle", "ms": 1500}]},
+ {"cfg": {"src": "S3:x7-threaded-ack-timeout-max", "adapter": "plain"}, "steps": [{"a": "Start"}, {"a": "WaitConnected"}, {"a": "Publish", "qos": 1, "size": 10, "ack": "max"}, {"a": "Settle", "ms": 1500}]},
+ {"cfg": {"src": "S3:x8-threaded-zero-timeouts", "adapter": "plain", "connect_timeout_tok": "zero", "ping_timeout_tok": "zero"}, "steps": [{"a": "Start"}, {"a": "Sleep", "ms": 300}, {"a": "Publish", "qos": 1, "size": 10, "ack": "zero"}, {"a": "Settle", "ms": 1500}]},
+]
+
+
+def extreme_config_half(pid, tier, seed, workdir, known):
+    """Real clients under extreme configuration values; MonC11 judges whether the event loop survived."""
+    import random
+    rng = random.Random(seed)
+    tok = lambda: rng.choice(["", "", "max", "zero"])
+    extra_t, extra_h = [], []
+    for i in range(60 if tier == "thorough" else 12):
+        extra_t.append({"cfg": {"src": "S2:extreme-tokio:%d" % i, "auto_broker": True, "ka": rng.choice([0, 1, 65535]), "connect_timeout_tok": tok(), "ping_timeout_tok": tok(),
+                                "base_tok": rng.choice(["", "durmax", "halfplus"]), "max_tok": rng.choice(["", "durmax"]), "jitter": rng.choice(["none", "uniform"])},
+                        "steps": [{"a": "ConnectPlan", "mode": rng.choice(["ok", "ok", "refuse"])}, {"a": "Start"}, {"a": "Run", "ms": 300}, {"a": "Publish", "qos": rng.choice([0, 1, 2]), "size": 10, "ack": tok()},
+                                  {"a": "ConnectPlan", "mode": "ok"}, {"a": "Settle", "ms": 2500}]})
+        extra_h.append({"cfg": {"src": "S2:extreme-threaded:%d" % i, "adapter": "plain", "connect": rng.choice(["", "", "refuse"]), "connect_timeout_tok": tok(), "ping_timeout_tok": tok(),
+                                "base_tok": rng.choice(["", "max", "halfplus", "zero"]), "max_tok": rng.choice(["", "max", "zero"])},
+                        "steps": [{"a": "Start"}, {"a": "Sleep", "ms": 200}, {"a": "Publish", "qos": rng.choice([0, 1, 2]), "size": 10, "ack": tok()}, {"a": "Settle", "ms": 800}]})
+    t_trace, t_sp, t_stats = run_scripts("client_run", EXTREME_TOKIO + extra_t, workdir, "extreme-tokio")
+    h_trace, h_sp, h_stats = run_scripts("thread_run", EXTREME_THREADED + extra_h, workdir, "extreme-threaded")
+    violations, seen, events, n = 0, [], 0, 0
+    for trace, sp, tag in ((t_trace, t_sp, "tc-xt"), (h_trace, h_sp, "tc-xh")):
+        verdict, tlc = trace_check(trace, [pid], os.path.join(workdir, tag))
+        breaches = list(verdict["errs"][pid])
+        v, sn = report(pid, breaches, trace, sp, known, workdir)
+        violations += v; seen += sn; events += verdict["events"]; n += len(breaches)
+    return violations, seen, {"states": 0, "transitions": 0, "codec_events": events + 1, "client_runs_extreme_configuration": t_stats["runs"] + h_stats["runs"], "breaches": n}
+
 # ------------------------------------------------------------------------------------------------
 # engine properties
 
 def engine_volume(tier):
     if tier == "thorough":
-        return dict(scripted=2000, adversarial=2000, faithful=2000, cycles=3000, races=3000, length=80, s1=20000)
+        return dict(scripted=600, adversarial=600, faithful=600, cycles=1200, races=1200, length=70, s1=8000)
     return dict(scripted=150, adversarial=150, faithful=150, cycles=300, races=300, length=50, s1=2500)
 
 
@@ -1035,7 +1082,7 @@ def check_engine_property(pid, tier, seed):
     # 2. code: execute the scenarios on the real engine (S1 from TLC, S2 random, S3 regression)
     args = ["--state", "--scripts-in", s1_path, "--regress", "--scripted", str(vol["scripted"]), "--adversarial", str(vol["adversarial"]),
             "--faithful", str(vol["faithful"]), "--cycles", str(vol["cycles"]), "--races", str(vol["races"]), "--len", str(vol["length"]), "--seed", str(seed)]
-    if tier == "thorough" and pid in ("C06", "C01"):
+    if tier == "thorough" and pid == "C06":
         args += ["--wrap", "1"]
     trace, scripts, stats = engine_run(args, workdir, "runs")
 
@@ -1062,6 +1109,10 @@ def check_engine_property(pid, tier, seed):
     codec_cov = None
     if pid == "C02":
         v3, seen3, codec_cov = codec_half(pid, tier, seed, workdir, known)
+        violations += v3
+        seen += seen3
+    if pid == "C11":
+        v3, seen3, codec_cov = extreme_config_half(pid, tier, seed, workdir, known)
         violations += v3
         seen += seen3
     if pid == "C16":
